@@ -573,3 +573,59 @@ def install(E):
             k(s, r)
         e.ev(g.iter, st, got)
     X['listcomp'] = listcomp
+
+
+def install_tokenize(E):
+    """T-TOK: tokenize.tokenize(BytesIO(s.encode('utf-8')).readline) yields a finite sequence of 5-tuples whose
+    (type, string) components are functions of s; it may raise TokenError instead.  untokenize(list of 2-tuples).decode()
+    is a function of the (type, string) sequence."""
+    X = E.externs
+    M = E.method_externs
+    StrS = z3.StringSort()
+    IntS = z3.IntSort()
+    TokLen = z3.Function('tok_len', StrS, IntS)
+    TokNum = z3.Function('tok_num', StrS, IntS, IntS)
+    TokVal = z3.Function('tok_val', StrS, IntS, StrS)
+    TokOk = z3.Function('tok_ok', StrS, z3.BoolSort())
+    E.tok = (TokLen, TokNum, TokVal, TokOk)
+    TOK5 = Tup(INT, STR, INT, INT, INT)
+    PAIR = Tup(INT, STR)
+    Untok = z3.Function('py_untokenize', z3.ArraySort(IntS, sort_of(PAIR)), IntS, StrS)
+    E.untok = Untok
+
+    def tok_call(e, n, pos, kws, st, k):
+        a = n.args[0] if n.args else None
+        src = None
+        # BytesIO(<s>.encode('utf-8')).readline
+        if (isinstance(a, ast.Attribute) and a.attr == 'readline' and isinstance(a.value, ast.Call) and a.value.args
+                and isinstance(a.value.args[0], ast.Call) and isinstance(a.value.args[0].func, ast.Attribute)
+                and a.value.args[0].func.attr == 'encode'):
+            src = a.value.args[0].func.value
+        if src is None:
+            raise Unsupported('tokenize.tokenize on something else than BytesIO(s.encode(..)).readline')
+        def got(s, sv_):
+            if sv_.ty.kind != 'str':
+                raise Unsupported('tokenize of ' + str(sv_.ty))
+            def good(s2):
+                ln = TokLen(sv_.t)
+                s2.assume(ln >= 0)
+                r = s2.new_list_sym(TOK5, ln)
+                er = s2.list_elems(r)
+                j = z3.Int(fresh_name('tj'))
+                ts = sort_of(TOK5)
+                s2.assume(forall([j], z3.And(ts.accessor(0, 0)(z3.Select(er, j)) == TokNum(sv_.t, j),
+                                             ts.accessor(0, 1)(z3.Select(er, j)) == TokVal(sv_.t, j)),
+                                 patterns=[z3.Select(er, j)]))
+                k(s2, r)
+            e.branch(s, TokOk(sv_.t), good, lambda s2: e.raise_(s2, 'TokenError', 'tokenize'), note='tok@%s' % n.lineno)
+        e.ev(src, st, got)
+    tok_call.lazy = True
+    X['tokenize.tokenize'] = tok_call
+
+    def untok(e, n, pos, kws, st, k):
+        lst = pos[0]
+        if lst.ty.kind != 'list' or sortkey(lst.ty.args[0]) != sortkey(PAIR):
+            raise Unsupported('untokenize of ' + str(lst.ty))
+        return k(st, SV(Ty('bytes'), Untok(st.list_elems(lst), st.list_len(lst))))
+    X['untokenize'] = untok
+    M[('bytes', 'decode')] = lambda e, n, o, pos, kws, st, k: k(st, SV(STR, o.t))
